@@ -294,7 +294,10 @@ def run_case(case, rec, mon=None):
     rng = rng_for(case["seed"], "C15", case["idx"])
     kind = case["kind"]
     last = None
-    for _ in range(case["n"]):
+    from ..common import copied, COPY_WAYS
+
+    alive = []
+    for j in range(case["n"]):
         ndim = int(rng.choice([1, 2, 2, 3, 3, 4])) if kind == "deltas" else int(rng.choice([2, 2, 3, 3, 4]))
         shape = [int(rng.choice([1, 2, 3, 5, 8, 13])) for _ in range(ndim)]
         dtype = str(rng.choice(["float64", "float64", "float32", "int32", "int32", "float16", "int16"]))
@@ -327,6 +330,23 @@ def run_case(case, rec, mon=None):
                 rec.count("attributes_reassigned_after_construction")
             else:
                 d = P.Deltas(nd, target_axis=target_axis, concatenate=concatenate, context_window=W, pad_mode=mode, **kwargs)
+            if j % 4 == 1:
+                # other Deltas objects alive in the same program: same window, higher orders, built after this one
+                alive.append(P.Deltas(nd + 1 + j % 2, context_window=W))
+                alive.append(P.Deltas(nd + 2, target_axis=0, context_window=W, pad_mode="constant"))
+                del alive[:-6]
+                rec.count("deltas_applied_after_higher_order_siblings_were_built")
+            if j % 5 == 2:
+                # the object as a worker process gets it: a deep copy, a pickle round trip, a shallow copy
+                way = COPY_WAYS[(j // 5) % 3]
+                try:
+                    d = monitor.adopt(copied(d, way), d)
+                    rec.count("deltas_applied_through_a_%s" % way)
+                except Exception as e:
+                    if callable(mode) and way == "pickle" and getattr(mode, "__module__", "") != "numpy":
+                        rec.count("copies_not_possible_harness_callable")
+                    else:
+                        mon.v("copying (%s) a Deltas object raised %r" % (way, e), check="copy_raise", op="deltas", pad_mode=str(mode))
             try:
                 if rng.random() < 0.5:
                     d.apply(x, axis)
@@ -369,6 +389,13 @@ def run_case(case, rec, mon=None):
                 rec.count("attributes_reassigned_after_construction")
             else:
                 s = P.Stack(n, time_axis=time_axis, pad_mode=mode, **kwargs)
+            if j % 5 == 2:
+                way = COPY_WAYS[(j // 5) % 3]
+                try:
+                    s = monitor.adopt(copied(s, way), s)
+                    rec.count("stack_applied_through_a_%s" % way)
+                except Exception as e:
+                    mon.v("copying (%s) a Stack object raised %r" % (way, e), check="copy_raise", op="stack", pad_mode=str(mode))
             try:
                 y = s.apply(x, axis, in_place) if rng.random() < 0.5 else s.apply(x, axis=axis, in_place=in_place)
             except Exception:
